@@ -91,7 +91,8 @@ mod verif {
             DIV => if y == 0 { None } else { x.checked_div(y) },
             REM => if y == 0 { None } else { Some(x.wrapping_rem(y)) },           // MIN % -1 == 0 is representable
             AND => Some(x & y), OR => Some(x | y), XOR => Some(x ^ y),
-            SHL => if ($y as i128) < 0 || ($y as i128) >= w { None } else { Some(x << ($y as u32)) },
+            // x * 2^y, when the kind can hold it: no set bit (no sign change) may be shifted out -- shifting back gives x
+            SHL => if ($y as i128) < 0 || ($y as i128) >= w { None } else { let v = x << ($y as u32); if (v >> ($y as u32)) == x { Some(v) } else { None } },
             _   => if ($y as i128) < 0 || ($y as i128) >= w { None } else { Some(x >> ($y as u32)) },
         };
         v.map(|v| v as i128)
@@ -210,25 +211,20 @@ def extract_crate(repo):
         parts.append((f"// {rel} : impl std::ops::{tr} for &Primitive (arms on dropped variants removed)", filt(it["all"], f"{f}.rs")))
     rel = "bytecode/src/variables/ops/bitops.rs"
     bt = src.toks(rel)
-    try:
-        parts.append((f"// {rel} : macro generic_bitop (verbatim) and its invocations", extract_macro_rules(bt, "generic_bitop")))
-    except Exception as e:
-        raise Undecided(f"{rel}: generic_bitop not found: {e}")
-    inv = []
-    from vlib.extract import find_block_after
-    _, _, i = find_block_after(bt, "macro_rules ! generic_bitop")      # only invocations after the macro definition
+    # the whole file except its `use` lines: helper traits / macros, generic_bitop! and its invocations
+    i = 0
+    body = []
     while i < len(bt):
-        if bt[i] == "generic_bitop" and bt[i + 1] == "!" and bt[i + 2] == "(":
-            from vlib.lexer import match_close
-            c = match_close(bt, i + 2)
-            inv.append(bt[i:c + 1] + [";"])
-            i = c + 1
-        else:
+        if bt[i] == "use":
+            while bt[i] != ";":
+                i += 1
             i += 1
-    if len(inv) < 5:
-        raise Undecided(f"{rel}: expected 5 generic_bitop! invocations, found {len(inv)}")
-    for x in inv:
-        parts.append(("", x))
+            continue
+        body.append(bt[i]); i += 1
+    n_inv = sum(1 for k in range(len(body) - 2) if body[k] == "generic_bitop" and body[k + 1] == "!" and body[k + 2] == "(" and (k == 0 or body[k - 1] != "macro_rules"))
+    if n_inv < 5:
+        raise Undecided(f"{rel}: expected 5 generic_bitop! invocations, found {n_inv}")
+    parts.append((f"// {rel} : the whole file but its `use` lines (helpers, macro generic_bitop, its invocations)", body))
     rel = "bytecode/src/variables/ops/ord.rs"
     for hdr in ("impl std :: cmp :: PartialOrd for Primitive", "impl std :: cmp :: Eq for Primitive", "impl std :: cmp :: Ord for Primitive"):
         it = src.item(rel, hdr)
